@@ -123,12 +123,14 @@ def World.seen (w : World) : List Fd :=
   | some k => killFrom k w.fds
   | none => w.fds
 
-/-- the process is still there after the scan -/
-def World.aliveAfter (w : World) : Bool := !w.goneBefore && w.diesAt.isNone
+/-- the process vanished before the scan could finish (it was gone before the call, or some
+    listed descriptor had not been reached yet when it died) -/
+def World.vanished (w : World) : Bool :=
+  w.goneBefore || (match w.diesAt with | some k => decide (k < w.fds.length) | none => false)
 
 def renderWorld (w : World) : Proc :=
   { fdDir := if w.goneBefore then .err .enoent else .ok (w.seen.map renderFd)
-    alive := w.aliveAfter }
+    alive := !w.vanished }
 
 /-! ### what the user is promised -/
 
@@ -140,10 +142,6 @@ def listed (fs : FS) (d : Fd) : Option POpenFile :=
   | .regular path _, none =>
     if fs.isFile path then some ⟨path, d.n, d.pos, mode d.flags, d.flags⟩ else none
   | _, _ => none
-
-/-- the process vanished before the scan could finish (some listed descriptor was not reached) -/
-def World.vanished (w : World) : Bool :=
-  w.goneBefore || (match w.diesAt with | some k => decide (k < w.fds.length) | none => false)
 
 def expectedOpenFiles (w : World) : Outcome (List POpenFile) :=
   if w.vanished then .exc .noSuchProcess else .ok (w.fds.filterMap (listed w.fs))
@@ -281,6 +279,10 @@ def WFItem : Item → Prop
 
 instance (it : Item) : Decidable (WFItem it) := by
   cases it <;> simp only [WFItem, NoWs] <;> infer_instance
+
+def Item.isKv : Item → Bool
+  | .kv _ _ => true
+  | _ => false
 
 def Item.isBadval : Item → Bool
   | .badval _ _ => true
